@@ -55,6 +55,7 @@ PROBES = [1, 0.5, -0.5, 0.25, -0.25, 0.3, -0.7, 2, 3, 1.5, 2.5, 0, 0.75]
 
 def run(ctx):
     repo = ctx.repo
+    _rows_from_per_shot_sequence(ctx, repo)
     _sampling_alignment(ctx, repo)
     _batch_order(ctx, repo)
     shared.module_state_rule(ctx, 'C17.f', ['cirq-ionq/cirq_ionq/', 'cirq-aqt/cirq_aqt/', 'cirq-pasqal/cirq_pasqal/'], floor=2)
@@ -574,3 +575,49 @@ def _batch_order(ctx, repo):
                    '(measurement keys and qubit mappings of circuit i are applied to it)', ci.mod.rel, bad[0].lineno if bad else fn.lineno)
     if n == 0:
         raise AnalysisError('C17.h: Job.results no longer enumerates the histograms')
+
+
+# ---------------------------------------------------------------------------------------------------------------------
+def _rows_from_per_shot_sequence(ctx, repo, rid='C17.j'):
+    """C17.j - the rows of a multi-key Result come from one per-shot walk, never from per-key aggregated counts."""
+    from ..flow import name_deps
+    ctx.decided.append(f'{rid} vendor results -> cirq.Result: the per-key measurement arrays are not built from aggregated per-key counts (rows of different keys would no longer belong to the same shot)')
+    ctx.rule(rid, 'joint shots stay joint: in every to_cirq_result of the vendor packages, nothing that derives from an aggregated count (a `.counts(...)` call, a Counter, `.most_common()`) '
+             'flows into the measurement arrays handed to the Result - expanding each key\'s own histogram puts the rows of every key in that key\'s own order, so correlations between '
+             'keys are lost although every single-key histogram stays right', floor=2, style='TNT')
+    n = 0
+    for m in sorted(repo.modules.values(), key=lambda x: x.rel):
+        if not m.rel.startswith(('cirq-ionq/', 'cirq-aqt/', 'cirq-pasqal/')) or m.rel.endswith('_test.py'):
+            continue
+        for fn in [f for f in ast.walk(m.tree) if isinstance(f, ast.FunctionDef) and f.name == 'to_cirq_result']:
+            def src(x):
+                if isinstance(x, ast.Call):
+                    cn = (call_name(x) or '').split('.')[-1]
+                    if cn in ('counts', 'Counter', 'most_common'):
+                        return {'AGG'}
+                return None
+            dep = name_deps(fn, {}, source_of=src)
+            sinks = []
+            for s_ in ast.walk(fn):
+                if isinstance(s_, ast.Assign) and isinstance(s_.targets[0], ast.Subscript) and isinstance(s_.targets[0].value, ast.Name) \
+                        and s_.targets[0].value.id in ('measurements', 'records'):
+                    sinks.append(s_.value)
+                if isinstance(s_, ast.Call) and (call_name(s_) or '').split('.')[-1] in ('ResultDict', 'Result'):
+                    sinks += [k.value for k in s_.keywords if k.arg in ('measurements', 'records')]
+            if not sinks:
+                continue
+            n += 1
+            bad = None
+            for e in sinks:
+                for x in ast.walk(e):
+                    if (isinstance(x, ast.Name) and 'AGG' in dep.get(x.id, set())) or src(x):
+                        bad = x
+                        break
+                if bad is not None:
+                    break
+            ci_name = next((c.name for c in repo.classes.values() if c.mod is m and fn in c.methods.values()), '?')
+            ctx.ob(rid, f'{m.name}.{ci_name}.to_cirq_result:rows', bad is None, '' if bad is None else
+                   f'`{ast.unparse(bad)[:50]}` (line {bad.lineno}) is aggregated per key and is expanded into the rows of that key: row i of two keys no longer comes from the same shot', m.rel,
+                   bad.lineno if bad is not None else fn.lineno)
+    if n == 0:
+        raise AnalysisError(f'{rid}: no to_cirq_result with a measurement sink found')
